@@ -218,16 +218,32 @@ def verdict(atom, tup):
     return ("error", ["TypeError"], "type")
 
 
-def is_known_range(a, f):
-    """Shape of the recorded finding `dispatch/range-in-overloaded-set`: OverflowError is due,
-    TypeError('Arguments must match ...') is raised, in a set with more than one
-    Python-visible overload; nothing ran, ledger unchanged."""
-    nov = len(a["ovs"]) + (1 if a["kind"] in ("ctor", "coerce") else 0)
+KNOWN_SHAPES = {
+    # shape -> (known_findings key, exact observation)
+    "range-in-overloaded-set": (
+        "dispatch/range-in-overloaded-set",
+        "TypeError 'Arguments must match' instead of OverflowError; no C++ body ran; ledger unchanged"),
+    "range-in-binary-operator": (
+        "dispatch/range-in-binary-operator",
+        "TypeError 'unsupported operand type(s)' instead of OverflowError; no C++ body ran; ledger unchanged"),
+}
+
+
+def known_shape(a, f):
+    """Shape of a recorded finding, or None.  Both shapes: OverflowError is due for an
+    out-of-range integer, a TypeError is raised instead, nothing ran, ledger unchanged."""
     o = f.get("observed") or {}
-    return (f.get("expected") == ["OverflowError"] and o.get("exc") == "TypeError"
-            and (o.get("msg") or "").startswith("Arguments must match") and not o.get("calls")
-            and f.get("ledger_before") == f.get("ledger_after") and not f.get("ledger_errors")
-            and nov > 1)
+    if not (f.get("expected") == ["OverflowError"] and o.get("exc") == "TypeError"
+            and not o.get("calls") and f.get("ledger_before") == f.get("ledger_after")
+            and not f.get("ledger_errors")):
+        return None
+    msg = o.get("msg") or ""
+    nov = len(a["ovs"]) + (1 if a["kind"] in ("ctor", "coerce") else 0)
+    if msg.startswith("Arguments must match") and nov > 1:
+        return "range-in-overloaded-set"
+    if a["kind"] == "oper" and a["op"] == "+" and msg.startswith("unsupported operand type(s) for +"):
+        return "range-in-binary-operator"
+    return None
 
 
 # ------------------------------------------------------------------- rendering
@@ -689,10 +705,10 @@ def oper_sets(add_oper, thorough):
             add_oper(op, [make_ov(p1, **C), make_ov(p2, **C)])
         add_oper(op, [make_ov(["i"]), make_ov(["i"], **C)])        # const / non-const pair
         add_oper(op, [make_ov(["i"])])                            # non-const only
+        add_oper(op, [make_ov(["l"], **C)])
         if thorough:
             add_oper(op, [make_ov(["i"], **C), make_ov(["d"], **C), make_ov(["s"], **C)])
             add_oper(op, [make_ov(["pa"], **C), make_ov(["pb"], **C), make_ov(["pc"], **C)])
-            add_oper(op, [make_ov(["l"], **C)])
             add_oper(op, [make_ov(["e"], **C)])
             add_oper(op, [make_ov(["S"], **C)])
     # the call operator alone takes several arguments, defaults and keywords
